@@ -20,12 +20,8 @@ pub fn get() -> FunctionDefinitions {
                 )
                 {
                     if let Ok(index) = TryInto::<usize>::try_into(index) {
-                        if str.len() < index {
-                            Some(str.into())
-                        } else {
-                            let head = str[..index].to_string();
-                            Some(head.into())
-                        }
+                        let head: String = str.chars().take(index).collect();
+                        Some(head.into())
                     } else {
                         None
                     }
